@@ -13,7 +13,14 @@ Tie #2 for Model/Store.lean.  Scenarios  create[, modify][, commit][, modify], c
   * syscall-level kills inside SQLite (strace fault injection: SIGKILL at the N-th fdatasync / pwrite64), every N in
     the thorough tier, a few in the quick tier;
   * file names: every name of length <= 3 over {a, space, ' " $ ; & | * ? ( ) -} (thorough: all 2379, quick: a seeded
-    sample) plus crafted ones.
+    sample) plus crafted ones;
+  * structures: single-model input and MULTI-MODEL input (two or three models separated by ENDMDL; `update` /
+    `update_xyz` without a model key then run model by model, several UPDATE statements per call), modifications of
+    `temp` or of the coordinates (`update_xyz`, `update('z')`, `update_column('z')`), with and without `model=...`;
+  * two observations that do not go through the recorded statements: after every step of a normal run the object's
+    connection is asked whether a transaction is open (`in_transaction`; expected from the scenario alone), and after a
+    kill the reader's finding is compared with the last-committed table computed IN THE HARNESS from the scenario's own
+    commits (`py_seen`: a commit the library issues on its own is recorded for the model, but does not count there).
 """
 import os, sys, json, time, hashlib, shutil, sqlite3, itertools, random, subprocess, signal, warnings, traceback
 
@@ -26,8 +33,9 @@ LEVEL = 'proof'
 CLUSTER = 'F'
 GEN_UNITS = ['Effects', 'fx_create_sql', 'fx_commit', 'fx_close', 'fx_init']
 PIN_TARGETS = ['PdbVerif.Pins.F']
-RULE = ('scenarios create[,modify][,commit][,modify],close(keep|remove) with modify in {update_column, update, add_column, '
-        'fix_chainID}, 1..40 atoms, file name initially absent | an older database | not a database; x a kill before every '
+RULE = ('scenarios create[,modify][,commit][,modify],close(keep|remove) with modify in {update_column, update, update_xyz, add_column, '
+        'fix_chainID} on temp or on the coordinates, with/without model=..., 1..40 atoms in one model or in 2..3 models (ENDMDL), '
+        'file name initially absent | an older database | not a database; x a kill before every '
         'statement, commit, close, os.remove and connect of the scenario; x file names over {a,space,quotes,$;&|*?()-}. '
         'Non-trivial = distinct by (operations completed, what a stock reader finds, name class).')
 ASSUMPTIONS = ['SQLite\'s rollback journal makes COMMIT one atomic step and loses exactly the uncommitted changes at a process '
@@ -47,13 +55,37 @@ VICTIMS = ['a', 'b', 'x', 'id', 'aa', 'aaa', '-a', 'pwned.db', 'victim.txt', 'rf
 # inputs
 # ---------------------------------------------------------------------------------------------------------------
 
-def pdb_lines(n, two_chains=True):
-    """n atoms, serial = 0..n-1, temp factor 0.00 (the tag), chains X / Y (so that fix_chainID has something to do)"""
+def base_xyz(j):
+    """coordinates of the atom with index j (within its model) as inserted; exact in float32 and float64"""
+    return 1.5 * (j % 1000), 0.25 * (j % 4000), -0.5 * (j % 2000)
+
+
+def pdb_lines(n, two_chains=True, models=1):
+    """n atoms, serial = 0..n-1, temp factor 0.00 (the tag), chains X / Y (so that fix_chainID has something to do).
+    models > 1: the n atoms are n/models atoms in each of `models` models (MODEL ... ENDMDL records; serials run on, the
+    coordinates repeat from model to model, as `update` without a model key gives every model the same values)"""
     out = []
+    per = n // models if models > 1 else n
     for i in range(n):
-        ch = 'X' if (i < (n + 1) // 2 or not two_chains) else 'Y'
-        out.append('ATOM  %5d  CA  ALA %1s%4d    %8.3f%8.3f%8.3f%6.2f%6.2f           C  ' % (i, ch, i % 9999 + 1, 1.5 * (i % 1000), 0.25 * (i % 4000), -0.5 * (i % 2000), 1.0, 0.0))
+        j = i % per
+        if models > 1 and j == 0:
+            out.append('MODEL     %4d' % (i // per + 1))
+        ch = 'X' if (j < (per + 1) // 2 or not two_chains) else 'Y'
+        out.append('ATOM  %5d  CA  ALA %1s%4d    %8.3f%8.3f%8.3f%6.2f%6.2f           C  ' % ((i, ch, j % 9999 + 1) + base_xyz(j) + (1.0, 0.0)))
+        if models > 1 and j == per - 1:
+            out.append('ENDMDL')
     return out
+
+
+def n_models(c):
+    return max(1, int(c.get('models') or 1))
+
+
+def layout(c):
+    """what read_back needs to know about the structure of a case: atoms per model, number of models, which column carries the tag"""
+    if n_models(c) == 1 and c.get('carrier', 'temp') == 'temp':
+        return None
+    return {'per': c['n'] // n_models(c), 'models': n_models(c), 'carrier': c.get('carrier', 'temp')}
 
 
 def lean_ops(c):
@@ -62,8 +94,13 @@ def lean_ops(c):
     if c.get('fix_chain'):
         ops.append(['update', 0])
     for m in c['steps']:
-        if m[0] in ('update_column', 'update'):
+        if m[0] == 'update_column':
             ops.append(['update', m[1]])
+        elif m[0] in ('update', 'update_xyz'):
+            # one UPDATE statement (executemany) per model: `update` without a model key goes model by model in a multi-model
+            # structure; with a key the scenario makes one call per listed model
+            k = len(m[3]) if len(m) > 3 and isinstance(m[3], list) else n_models(c)
+            ops += [['update', m[1]]] * k
         elif m[0] == 'add_column':
             ops.append(['addcol', m[1]])
         elif m[0] == 'commit':
@@ -81,7 +118,8 @@ def lean_ops(c):
 STD_COLS = ['serial', 'name', 'altLoc', 'resName', 'chainID', 'resSeq', 'iCode', 'x', 'y', 'z', 'occ', 'temp', 'element', 'model']
 
 
-def read_back(path):
+def read_back(path, lay=None):
+    """lay: see layout(); None = one model, the tag is `temp`"""
     if not os.path.lexists(path):
         return 'nofile', ''
     try:
@@ -111,8 +149,31 @@ def read_back(path):
             tags.append(t)
     extra = [x for x in cols if x not in STD_COLS]
     detail = ''
+    if lay is not None and serials != [999]:
+        # multi-model structures / tag carried by z: every standard cell of every row is what was inserted or the complete
+        # effect of one modification; the tag of a row is its `temp`, or its displacement along z
+        if any(k not in cols for k in STD_COLS):
+            return 'corrupt', 'standard columns missing: %r' % (cols,)
+        ci = {k: cols.index(k) for k in STD_COLS}
+        tags = []
+        for i, r in enumerate(rows):
+            try:
+                j = r[si] % lay['per']
+                x0, y0, z0 = base_xyz(j)
+                dz = r[ci['z']] - z0
+                ok = (r[ci['name']] == 'CA' and r[ci['resName']] == 'ALA' and r[ci['x']] == x0 and r[ci['y']] == y0 and
+                      r[ci['model']] == r[si] // lay['per'] and r[ci['resSeq']] == j % 9999 + 1 and r[ci['occ']] == 1.0 and
+                      (dz == 0 if lay['carrier'] == 'temp' else (r[ti] == 0 and dz == int(dz))))
+                t = r[ti] if lay['carrier'] == 'temp' else dz
+                t = int(t) if float(t) == int(t) else t
+            except (TypeError, ValueError, OverflowError):
+                ok = False
+            if not ok:
+                return 'corrupt', 'row %d damaged: %r' % (i, r)
+            if t not in tags:
+                tags.append(t)
     # every standard cell of every row must be what was inserted (a "part" of a row would show here)
-    for i, r in enumerate(rows):
+    for i, r in enumerate(rows if (lay is None or serials == [999]) else []):
         if r[cols.index('name')] != 'CA' or r[cols.index('resName')] != 'ALA' or abs(r[cols.index('x')] - 1.5 * (r[si] % 1000)) > 1e-9:
             detail = 'row %d damaged: %r' % (i, r)
             return 'corrupt', detail
@@ -144,6 +205,8 @@ class _Kill:
         self.path = progress_path
         self.removed_old = False
         self.n_rows = 0
+        self.lib_commits = []     # indices into `done` of commits the scenario did not ask for (issued by the library on its own)
+        self.txn = []             # transaction control other than commit(): `with conn:`, rollback(), executescript()
 
     def point(self, label):
         """called BEFORE a statement / commit / close / os.remove / connect"""
@@ -160,7 +223,8 @@ class _Kill:
 
     def flush(self, label=None):
         with open(self.path, 'w') as f:
-            json.dump({'done': self.done, 'at': label, 'points': self.count, 'labels': self.labels, 'removed_old': self.removed_old}, f)
+            json.dump({'done': self.done, 'at': label, 'points': self.count, 'labels': self.labels, 'removed_old': self.removed_old,
+                       'lib_commits': self.lib_commits, 'txn': self.txn}, f)
 
 
 _K = None
@@ -186,6 +250,13 @@ def _after(sql, many_rows=None):
 
 
 class KCur(sqlite3.Cursor):
+    def executescript(self, script):
+        _K.point('executescript')
+        r = super().executescript(script)
+        _K.txn.append('executescript')
+        _did_commit()
+        return r
+
     def execute(self, sql, *a):
         _K.point('execute ' + _verb(sql))
         r = super().execute(sql, *a)
@@ -213,12 +284,42 @@ class KConn(sqlite3.Connection):
     def commit(self):
         _K.point('commit')
         super().commit()
-        _K.done.append(['commit'])
+        _did_commit()
 
     def close(self):
         _K.point('close')
         super().close()
         _K.done.append(['closed'])
+
+    # transaction control that does not go through commit(): recorded (the store model is told about the commit), and a
+    # kill point like any other
+    def __exit__(self, et, ev, tb):
+        what = 'with-conn ' + ('commit' if et is None else 'rollback')
+        _K.point(what)
+        r = super().__exit__(et, ev, tb)
+        _K.txn.append(what)
+        if et is None:
+            _did_commit()
+        return r
+
+    def rollback(self):
+        _K.point('rollback')
+        super().rollback()
+        _K.txn.append('rollback')
+
+    def executescript(self, script):
+        _K.point('executescript')
+        r = super().executescript(script)           # commits a pending transaction first
+        _K.txn.append('executescript')
+        _did_commit()
+        return r
+
+
+def _did_commit():
+    """a commit has been carried out; one the scenario did not ask for (a commit step, or the close) is marked"""
+    if _CUR['op'] not in (['commit'], ['close']):
+        _K.lib_commits.append(len(_K.done))
+    _K.done.append(['commit'])
 
 
 def _child_hook(event, args):
@@ -247,6 +348,27 @@ def _values(kind, tag, n, columns=1):
     return np.array([[tag]] * n, dtype=dt)
 
 
+def _carrier_values(c, kind, tag, rows, columns):
+    """values of a modification with tag `tag` for atoms 0..rows-1 of a model (or of the whole table: the coordinates
+    repeat from model to model).  carrier temp: the tag itself; carrier z: the inserted z displaced by the tag (columns =
+    1: z alone, 3: x, y, z)"""
+    import numpy as np
+    if c.get('carrier', 'temp') == 'temp':
+        return _values(kind, tag, rows, columns=1 if columns == 1 else 2)
+    per = c['n'] // n_models(c)
+    if columns == 1:
+        v = [base_xyz(i % per)[2] + tag for i in range(rows)]
+    elif columns == 2:
+        v = [[base_xyz(i % per)[2] + tag] for i in range(rows)]
+    else:
+        v = [[base_xyz(i % per)[0], base_xyz(i % per)[1], base_xyz(i % per)[2] + tag] for i in range(rows)]
+    if kind == 'tuple':
+        return tuple(tuple(r) if isinstance(r, list) else r for r in v)
+    if kind in ('f64', 'f32'):
+        return np.array(v, dtype={'f64': np.float64, 'f32': np.float32}[kind])
+    return v
+
+
 def sqlfile_arg(c, name):
     """the file-name argument in the variants callers use (str, pathlib.Path, bytes)"""
     import pathlib
@@ -262,8 +384,19 @@ def run_scenario(c, name):
     """the real calls; `name` is the file name as a str (relative to the cwd, or absolute); returns the object"""
     import numpy as np
     from pdb2sql import pdb2sql
-    lines = pdb_lines(c['n'])
+    lines = pdb_lines(c['n'], models=n_models(c))
+    per = c['n'] // n_models(c)
+    col = 'temp' if c.get('carrier', 'temp') == 'temp' else 'z'
+
+    def probe_txn():
+        if _PROBE is not None:
+            # after the creation and after every step: is a transaction open on the object's connection?  (a query, no change)
+            try:
+                _PROBE.setdefault('in_txn', []).append(bool(db.conn.in_transaction))
+            except Exception as e:          # noqa
+                _PROBE.setdefault('in_txn', []).append(exc_tag(e))
     db = pdb2sql(lines, sqlfile=sqlfile_arg(c, name), fix_chainID=bool(c.get('fix_chain')))
+    probe_txn()
     if _PROBE is not None:
         # the harness (not the library) asks the object's own connection how it is configured; a query, no change
         _PROBE['isolation_level'] = db.conn.isolation_level
@@ -271,25 +404,42 @@ def run_scenario(c, name):
         _PROBE['synchronous'] = sqlite3.Connection.execute(db.conn, 'PRAGMA synchronous').fetchone()[0]
     for m in c['steps']:
         dt = m[2] if len(m) > 2 else None
+        # m[3] (update / update_xyz): None = no model key (a multi-model structure is then updated model by model by the
+        # library itself); a list of model numbers = one call with model=k for each of them, in that order
+        keys = [{'model': k} for k in m[3]] if len(m) > 3 and isinstance(m[3], list) else [{}]
         if m[0] == 'update_column':
             _CUR['op'] = ['update', m[1]]
-            db.update_column('temp', _values(dt, m[1], c['n']))
+            db.update_column(col, _carrier_values(c, dt, m[1], c['n'], 1))
         elif m[0] == 'update':
             _CUR['op'] = ['update', m[1]]
-            db.update('temp', _values(dt if dt in ('f64', 'f32', 'i32', 'i64') else 'f64', m[1], c['n'], columns=2))
+            for kw in keys:
+                db.update(col, _carrier_values(c, dt if dt in ('f64', 'f32', 'i32', 'i64') else 'f64', m[1], per, 2), **kw)
+        elif m[0] == 'update_xyz':
+            _CUR['op'] = ['update', m[1]]
+            for kw in keys:
+                if col == 'z':
+                    db.update_xyz(_carrier_values(c, dt, m[1], per, 3), **kw)
+                else:
+                    raise ValueError('update_xyz needs a scenario whose tag is carried by z')
         elif m[0] == 'add_column':
             _CUR['op'] = ['addcol', m[1]]
             db.add_column(m[1], 'FLOAT', 0)
         elif m[0] == 'commit':
+            _CUR['op'] = ['commit']
             db._commit()
         _CUR['op'] = None
-    db._close(rmdb=(c['close'] == 'remove'))
-    if _K is not None:
-        _K.done.append(['close_keep'] if c['close'] == 'keep' else ['close_remove'])     # the whole close is done
-    if c.get('close_twice'):
-        db._close(rmdb=True)                    # closing again (after remove: nothing left; after keep: the kept file goes)
+        probe_txn()
+    _CUR['op'] = ['close']
+    try:
+        db._close(rmdb=(c['close'] == 'remove'))
         if _K is not None:
-            _K.done.append(['close_remove'])
+            _K.done.append(['close_keep'] if c['close'] == 'keep' else ['close_remove'])     # the whole close is done
+        if c.get('close_twice'):
+            db._close(rmdb=True)                    # closing again (after remove: nothing left; after keep: the kept file goes)
+            if _K is not None:
+                _K.done.append(['close_remove'])
+    finally:
+        _CUR['op'] = None
     return db
 
 
@@ -399,8 +549,12 @@ def impl(ctx, c):
             with warnings.catch_warnings():
                 warnings.simplefilter('ignore')
                 val, events = T.traced(lambda: run_scenario(c, given))
-            out['statements'] = sorted({l.split()[1] for l in _K.labels if l.startswith('execute')})
+            out['statements'] = sorted({l.split()[1] for l in _K.labels if l.startswith('execute') and len(l.split()) > 1})
+            out['in_txn'] = _PROBE.pop('in_txn', [])
             out['conn'] = dict(_PROBE)
+            out['txn_control'] = list(_K.txn)
+            out['commits'] = sum(1 for o in _K.done if o == ['commit'])
+            out['lib_commits'] = len(_K.lib_commits)
         finally:
             sqlite3.connect = orig_connect
             _K = None
@@ -432,17 +586,34 @@ def impl(ctx, c):
         out['foreign'] = foreign
         c['ops_sent'] = lean_ops(c)
     else:
-        prog, rc = _fork_run(ctx, c, name, wd, c['kill'])
+        try:
+            prog, rc = _fork_run(ctx, c, name, wd, c['kill'])
+        except subprocess.TimeoutExpired:
+            # the child did not get to its kill point in time and has been SIGKILLed wherever it was: that is a process death
+            # too, at a moment we do not know -- the file must hold the last-committed table of SOME prefix of the scenario
+            ops_all = lean_ops(c)
+            prog, rc = {'at': 'wherever it was after 60 s (SIGKILL)', 'done': ops_all}, 77
+            out['timed_out'] = True
+            out['allowed'] = []
+            for k in range(len(ops_all) + 1):
+                a = py_seen(c, ops_all[:k])
+                if a not in out['allowed']:
+                    out['allowed'].append(a)
         out['outcome'] = 'killed' if rc == 77 else 'ok'
         out['at'] = prog['at']
         out['done'] = prog['done']
         out['removed_old'] = bool(prog.get('removed_old')) and ['open'] not in prog['done']
         # operations completed -> what the model is asked (a closed connection is not an operation of its own)
         ops = [o for o in prog['done'] if o != ['closed']]
+        # the same without the commits the scenario did not ask for: what the property's expectation is computed from
+        own = [o for i, o in enumerate(prog['done']) if o != ['closed'] and i not in set(prog.get('lib_commits', []))]
         if rc == 0:
-            ops = lean_ops(c)
+            ops = own = lean_ops(c)
         c['ops_sent'] = ops
-    rd, detail = read_back(path)
+        out['lib_commits'] = len(prog.get('lib_commits', []))
+        out['txn_control'] = prog.get('txn', [])
+        out['expected'] = py_seen(c, own)
+    rd, detail = read_back(path, layout(c))
     out['read'] = rd
     if detail:
         out['read_detail'] = detail
@@ -452,6 +623,64 @@ def impl(ctx, c):
     out['modified'] = sorted(k for k in before if k in after and before[k] != after[k] and k != name)
     out['journal_left'] = (name + '-journal') in after
     shutil.rmtree(wd, ignore_errors=True)
+    return out
+
+
+def py_seen(c, ops):
+    """Spec.C20.lastCommitted, evaluated in the harness: what a fresh reader must find after the statement-level
+    operations `ops` of which the commits are the SCENARIO's (commit steps, close(keep)) -- DDL with nothing pending is
+    its own commit point, INSERT/UPDATE stay pending until the next commit point.  Same summary as read_back."""
+    def table(rows):
+        if rows is None:
+            return 'notable'
+        tags, colsets = [], []
+        for r in rows:
+            if r[1] not in tags:
+                tags.append(r[1])
+            if r[2] not in colsets:
+                colsets.append(r[2])
+        return {'n': len(rows), 'ids_contiguous': [r[0] for r in rows] == list(range(len(rows))), 'tags': tags, 'cols': colsets}
+    phase, held, dirty = 'fresh', None, False
+    seen = {'nofile': 'nofile', 'olddb': table([[999, 0, []]]), 'garbage': 'notadb'}.get(c['r0'], 'nofile')
+    for o in ops:
+        k = o[0]
+        if k == 'open':
+            if phase == 'fresh':
+                phase, held, dirty, seen = 'live', None, False, 'notable'
+        elif phase == 'live' and k == 'create':
+            if held is None:
+                held = []
+                if not dirty:
+                    seen = table(held)
+        elif phase == 'live' and k == 'insert' and held is not None:
+            held = held + [[i, 0, []] for i in range(int(o[1]))]
+            dirty = True
+        elif phase == 'live' and k == 'update' and held is not None:
+            held = [[r[0], o[1], r[2]] for r in held]
+            dirty = True
+        elif phase == 'live' and k == 'addcol' and held is not None:
+            held = [[r[0], r[1], r[2] + [o[1]]] for r in held]
+            if not dirty:
+                seen = table(held)
+        elif phase == 'live' and k == 'commit':
+            dirty, seen = False, table(held)
+        elif phase == 'live' and k == 'close_keep':
+            phase, dirty, seen = 'closed', False, table(held)
+        elif k == 'close_remove' and phase in ('live', 'closed'):
+            phase, dirty, seen = 'closed', False, 'nofile'
+    return seen
+
+
+def expected_in_txn(c):
+    """is a transaction open after the creation and after each step?  From the scenario alone: the bulk INSERT and every
+    UPDATE open / continue the implicit transaction, ALTER TABLE leaves it as it is, only a commit step ends it"""
+    out, t = [True], True
+    for m in c['steps']:
+        if m[0] in ('update_column', 'update', 'update_xyz'):
+            t = True
+        elif m[0] == 'commit':
+            t = False
+        out.append(t)
     return out
 
 
@@ -479,6 +708,8 @@ def agree_model(c, out, model):
         return f'scenario raised {out["outcome"]}: {out.get("error")}'
     if out.get('removed_old') and out['read'] == 'nofile':
         return True                                # killed between os.remove(old) and connect: see ASSUMPTIONS
+    if out.get('timed_out'):
+        return True                                # killed at an unknown moment: nothing to ask the model; agree_spec judges the file
     model = dict(model, read=_rescale(c, model['read']))
     if not _same_read(out['read'], model['read']):
         return f'stock reader finds {out["read"]} {out.get("read_detail", "")}; model {model["read"]} (operations completed: {c.get("ops_sent")})'
@@ -489,6 +720,10 @@ def agree_model(c, out, model):
         extra = [v for v in out.get('statements', []) if v not in ALLOWED_VERBS]
         if extra:
             return f'statements outside the store model executed on the file-backed connection: {extra}'
+        # `with conn:` ending in a commit is a commit (in the kill runs the model is told so); a rollback or a script is not an operation of the model
+        beyond = [t for t in out.get('txn_control', []) if t != 'with-conn commit']
+        if beyond:
+            return f'transaction control outside the store model (it knows statements, commit and close): {beyond}'
         cn = out.get('conn', {})
         if cn and (cn.get('journal_mode') != 'delete' or cn.get('isolation_level') != ''):
             return f'the object\'s connection is not the one the store model assumes (rollback journal on disk, implicit deferred transactions): {cn}'
@@ -499,7 +734,8 @@ def agree_spec(c, out, spec):
     """the property: keep -> exactly the table held; remove -> exactly that file gone; a kill -> the file opens cleanly
     and holds no atoms or the complete last-committed table; names are data"""
     spec = dict(spec, seen=_rescale(c, spec['seen']), held=_rescale(c, spec['held']))
-    if out['read'] in ('corrupt', 'notadb') and not (c['r0'] == 'garbage' and not c.get('ops_sent')):
+    if (out['read'] in ('corrupt', 'notadb') and not (c['r0'] == 'garbage' and not c.get('ops_sent'))
+            and not (out.get('timed_out') and out['read'] in out['allowed'])):
         return f'file does not open cleanly: {out["read"]} {out.get("read_detail", "")}'
     if out['created'] or out['deleted'] or out['modified']:
         extra = [x for x in out['created'] if x != rel_name(c) + '-journal']
@@ -512,6 +748,9 @@ def agree_spec(c, out, spec):
             return f'a process was spawned: {out["spawned"]}'
         if out['foreign']:
             return f'an action named something other than the database file: {out["foreign"]}'
+        if 'in_txn' in out and out['in_txn'] != expected_in_txn(c):
+            return (f'uncommitted modifications do not stay uncommitted (or committed ones pending): transaction open after creation / each step '
+                    f'{out["in_txn"]}, the scenario {c["steps"]} says {expected_in_txn(c)}')
         if c['close'] == 'keep' and not c.get('close_twice'):
             if out['read'] != spec['held'] or spec['held'] != spec['seen']:
                 return f'after close(keep) a reader finds {out["read"]}, the object held {spec["held"]}'
@@ -522,8 +761,17 @@ def agree_spec(c, out, spec):
                 return 'journal left behind after close(remove)'
         return True
     # killed
+    if out.get('timed_out'):
+        if out['read'] in out['allowed'] or (out['read'] == 'nofile' and c['r0'] != 'nofile'):
+            return 'discard'
+        return f'killed {out.get("at")}: a reader finds {out["read"]}, which is not the table of any commit point of the scenario: {out["allowed"]}'
     if out.get('removed_old') and out['read'] == 'nofile':
         return True
+    if 'expected' in out and out['read'] != out['expected']:
+        noatoms = out['read'] in ('nofile', 'notable') or (isinstance(out['read'], dict) and out['read']['n'] == 0)
+        return (f'after a kill before "{out.get("at")}" a reader finds {out["read"]}; the last table the SCENARIO committed is {out["expected"]}'
+                + (' (no atoms)' if noatoms else ' -- PART OF A TABLE or uncommitted data') +
+                (f'; the library committed {out["lib_commits"]} time(s) on its own {out.get("txn_control")}' if out.get('lib_commits') else ''))
     if out['read'] != spec['seen']:
         noatoms = out['read'] in ('nofile', 'notable') or (isinstance(out['read'], dict) and out['read']['n'] == 0)
         return f'after a kill before "{out.get("at")}" a reader finds {out["read"]}; last committed table is {spec["seen"]}' + (' (no atoms)' if noatoms else ' -- PART OF A TABLE or uncommitted data')
@@ -534,14 +782,16 @@ def nontrivial_key(c, out):
     nm = c['name']
     cls = 'plain' if nm.replace('.', '').isalnum() else 'hostile'
     return [c['kind'], json.dumps(c.get('ops_sent')), json.dumps(out['read'], sort_keys=True), cls if c['kind'] == 'normal' else out.get('at'), c['r0'],
-            c.get('name_kind', 'str'), bool(c.get('close_twice'))]
+            c.get('name_kind', 'str'), bool(c.get('close_twice')), n_models(c), c.get('carrier', 'temp')]
 
 
 def distribution(recs):
-    kinds, reads, names, ats = {}, {}, {'plain': 0, 'hostile': 0}, {}
+    kinds, reads, names, ats, structs = {}, {}, {'plain': 0, 'hostile': 0}, {}, {}
     for r in recs:
         c = r['case']
         kinds[c['kind']] = kinds.get(c['kind'], 0) + 1
+        sk = '%s, %d model(s), tag in %s' % (c['kind'], n_models(c), c.get('carrier', 'temp'))
+        structs[sk] = structs.get(sk, 0) + 1
         if isinstance(r['impl'], dict) and 'read' in r['impl']:
             rd = r['impl']['read']
             key = rd if isinstance(rd, str) else ('table n=%s' % ('0' if rd['n'] == 0 else '>0'))
@@ -550,7 +800,7 @@ def distribution(recs):
                 a = r['impl'].get('at')
                 ats[a] = ats.get(a, 0) + 1
         names['plain' if c['name'].replace('.', '').isalnum() else 'hostile'] += 1
-    return {'kinds': kinds, 'reader_finds': reads, 'names': names, 'kill_points': ats}
+    return {'kinds': kinds, 'reader_finds': reads, 'names': names, 'kill_points': ats, 'structures': structs}
 
 
 # ---------------------------------------------------------------------------------------------------------------
@@ -594,6 +844,69 @@ def _scenario(rng, n=None, long=False):
             'close_twice': rng.random() < (0.4 if close == 'remove' else 0.15)}
 
 
+XYZ_DTYPES = [None, 'tuple', 'f64', 'f32']
+
+MM_FIXED = [
+    # the property's scenarios on a structure of several models: create, modify / create, commit, modify / longer
+    {'n': 6, 'models': 2, 'carrier': 'temp', 'steps': [['update', 3, 'f64']], 'close': 'keep', 'fix_chain': False, 'r0': 'nofile'},
+    {'n': 6, 'models': 3, 'carrier': 'z', 'steps': [['commit'], ['update_xyz', 4, 'f64']], 'close': 'remove', 'fix_chain': False, 'r0': 'olddb'},
+    {'n': 4, 'models': 2, 'carrier': 'z', 'steps': [['update', 2, 'f32', [1, 0]], ['commit'], ['update_column', 5, None], ['add_column', 'w'],
+                                                    ['update_xyz', 7, None], ['commit'], ['update', 8, 'f64']],
+     'close': 'keep', 'fix_chain': False, 'r0': 'garbage'},
+    {'n': 9, 'models': 3, 'carrier': 'temp', 'steps': [['add_column', 'u'], ['update', 6, 'i32'], ['commit'], ['update', 1, 'f64', [2, 0, 1]], ['update', 9, 'f32']],
+     'close': 'remove', 'fix_chain': False, 'r0': 'nofile', 'close_twice': True},
+]
+
+
+def _scenario_mm(rng, long=False, small=False):
+    """a scenario on a structure of 2 or 3 models separated by ENDMDL (sometimes 1, as the control): modifications through
+    update / update_xyz without a model key (the library goes model by model) or with model=k for every k in some order,
+    update_column over the whole table, add_column; the tag is carried by temp or by the z coordinate"""
+    M = rng.choice([1, 2, 2, 2, 3, 3])
+    per = rng.choice([1, 2, 3] if small else [1, 2, 3, 5, 8, 13])
+    carrier = rng.choice(['temp', 'z'])
+
+    def mods():
+        k = rng.choice(['update', 'update', 'update_xyz' if carrier == 'z' else 'update', 'update_column', 'add_column'])
+        if k == 'add_column':
+            return ['add_column', 'q%d' % rng.randint(0, 99)]
+        tag = rng.randint(1, 9)
+        if k == 'update_column':
+            return [k, tag, rng.choice(DTYPES if carrier == 'temp' else XYZ_DTYPES)]
+        dt = rng.choice(['f64', 'f32', 'i32', 'i64'] if carrier == 'temp' else (['f64', 'f32'] if k == 'update' else XYZ_DTYPES))
+        if rng.random() < 0.65:
+            return [k, tag, dt]
+        order = list(range(M))
+        rng.shuffle(order)
+        return [k, tag, dt, order]
+    steps = []
+    if long:
+        for _ in range(rng.randint(3, 7)):
+            steps.append(['commit'] if rng.random() < 0.35 else mods())
+    else:
+        if rng.random() < 0.8:
+            steps.append(mods())
+        if rng.random() < 0.3:
+            steps.append(mods())
+        if rng.random() < 0.6:
+            steps.append(['commit'])
+        if rng.random() < 0.8:
+            steps.append(mods())
+    seen, out = set(), []
+    for s in steps:
+        if s[0] == 'add_column':
+            if s[1] in seen:
+                continue
+            seen.add(s[1])
+        out.append(s)
+    close = rng.choice(['keep', 'remove'])
+    # fix_chainID only on one-model structures: on a multi-model structure it raises TypeError in the unchanged library
+    # (get('chainID') answers model by model), before any scenario starts
+    return {'n': M * per, 'models': M, 'carrier': carrier, 'steps': out, 'close': close,
+            'fix_chain': M == 1 and rng.random() < 0.25, 'r0': rng.choice(['nofile', 'nofile', 'olddb', 'garbage']),
+            'close_twice': rng.random() < (0.4 if close == 'remove' else 0.15)}
+
+
 def all_names():
     out = []
     for L in (1, 2, 3):
@@ -623,18 +936,27 @@ def cases(ctx):
          'close': 'remove', 'fix_chain': False, 'r0': 'garbage', 'close_twice': True},
     ]
     scen = fixed + [_scenario(rng) for _ in range(ctx.scale(14, 80))] + [_scenario(rng, long=True) for _ in range(ctx.scale(12, 80))]
+    # (1b) the same on multi-model structures (ENDMDL), tag in temp or in the coordinates
+    scen += MM_FIXED + [_scenario_mm(rng) for _ in range(ctx.scale(8, 60))] + [_scenario_mm(rng, long=True) for _ in range(ctx.scale(6, 60))]
     kinds = ['str', 'str', 'path', 'bytes', 'abs', 'subdir']
     for i, s in enumerate(scen):
         c = dict(s, op='store_scenario', kind='normal', name=rng.choice(['atoms.db', 'x1.sqlite', 'data']), name_kind=kinds[i % len(kinds)])
         out.append(c)
     # (2) fault enumeration: a kill before every statement / commit / close / os.remove / connect
     kill_scen = fixed + [_scenario(rng, n=rng.choice([2, 3, 6]), long=(j % 2 == 1)) for j in range(ctx.scale(4, 30))]
-    for s in kill_scen:
+    n_single = len(kill_scen)
+    kill_scen += MM_FIXED + [_scenario_mm(rng, long=(j % 2 == 1), small=True) for j in range(ctx.scale(4, 30))]
+    for i, s in enumerate(kill_scen):
         c0 = dict(s, op='store_scenario', kind='kill', name='k.db', kill=None)
         wd = _prepare_dir(ctx, c0, 'k.db')
         prog, rc = _fork_run(ctx, c0, 'k.db', wd, None)
         shutil.rmtree(wd, ignore_errors=True)
+        labels = prog.get('labels', [])
         for k in range(prog['points']):
+            # quick tier, multi-model family (an update there is a long run of SELECTs around each UPDATE): of several reads in a
+            # row only the first is a kill point -- nothing is written between them; the thorough tier takes every one
+            if i >= n_single and not ctx.thorough and 0 < k < len(labels) and labels[k] == labels[k - 1] == 'execute SELECT':
+                continue
             out.append(dict(c0, kill=k))
     # (2b) a table larger than SQLite's page cache: create, commit, modify every row twice, kill before the commit --
     # uncommitted pages have been spilled into the database file by then; the reader must still find the committed table
@@ -705,7 +1027,7 @@ def strace_kills(ctx, c, max_n):
                             '-e', 'inject=fdatasync,pwrite64:signal=SIGKILL:when=%d' % n, sys.executable, '-c', code],
                            cwd=wd, capture_output=True, text=True, timeout=120)
         runs += 1
-        rd, detail = read_back(os.path.join(wd, 's.db'))
+        rd, detail = read_back(os.path.join(wd, 's.db'), layout(c))
         lst = _listing(wd)
         shutil.rmtree(wd, ignore_errors=True)
         if p.returncode == 0:
@@ -891,6 +1213,9 @@ def extra_checks(ctx):
     if ctx.thorough:
         scen.append({'n': 400, 'steps': [['commit'], ['update_column', 7]], 'close': 'keep', 'fix_chain': True, 'r0': 'olddb'})
         scen.append({'n': 25, 'steps': [['update', 2]], 'close': 'remove', 'fix_chain': False, 'r0': 'nofile'})
+        # multi-model, never committed: whatever the kill hits, no atoms may be found
+        scen.append({'n': 24, 'models': 3, 'carrier': 'z', 'steps': [['update', 3, 'f64'], ['add_column', 'w'], ['update_xyz', 5, 'f32'], ['update_column', 6, None]],
+                     'close': 'remove', 'fix_chain': False, 'r0': 'nofile'})
     total, note = 0, ''
     bad = None
     for c in scen:
